@@ -350,7 +350,7 @@ func (g *exprGen) gen(ty byte, depth int) Expr {
 }
 
 func runC06(c *Ctx) {
-	c.Rule = "streams: (product) every binary operator x every ordered pair of a 60-value pool covering all types, 64-bit boundary integers, empty strings/bytes, sets of every element type; every unary operator x pool; (tree) well-typed random postfix from typed expression trees with bound variables; (soup) malformed operator sequences, underflow, leftovers, 1001-deep pushes, unknown variables. Non-trivial = the operator application is well-typed by the model's table or the sequence exercises a stack error; distinct = distinct canonical case encodings."
+	c.Rule = "streams: (product) every binary operator x every ordered pair of a 60-value pool covering all types, 64-bit boundary integers, empty strings/bytes, sets of every element type; every unary operator x pool; (tree) well-typed random postfix from typed expression trees with bound variables; (shared) one bound set as operand of two or three set operators in one expression (operands carry spare capacity); (soup) malformed operator sequences, underflow, leftovers, 1001-deep pushes, unknown variables. Non-trivial = the operator application is well-typed by the model's table or the sequence exercises a stack error; distinct = distinct canonical case encodings."
 	r := NewRng(c.Seed)
 	pool := valuePool()
 
@@ -434,6 +434,37 @@ func runC06(c *Ctx) {
 		c.Count(fmt.Sprintf("tree-len:%d", bucket(len(e))))
 		if i < 3 {
 			c.Sample(map[string]interface{}{"stream": "tree", "case": exprCaseSx(e, g.binds)})
+		}
+	}
+
+	// (shared) one bound set used as the operand of two set operators inside one expression:
+	// the first result is still on the stack while the second operator runs
+	xv := Op{K: 'v', T: V("x")}
+	sets := [][3]Term{
+		{SetOf(I(1), I(2)), SetOf(I(3)), SetOf(I(4))},
+		{SetOf(I(1), I(2), I(3)), SetOf(I(2)), SetOf(I(3), I(9))},
+		{SetOf(S("a"), S("b")), SetOf(S("c")), SetOf(S("d"))},
+		{SetOf(B([]byte{1})), SetOf(B([]byte{2})), SetOf(B([]byte{3}))},
+		{SetOf(I(1)), SetOf(I(1)), SetOf(I(2))},
+	}
+	for _, tr := range sets {
+		a, b := Op{K: 'v', T: tr[1]}, Op{K: 'v', T: tr[2]}
+		for _, o1 := range []string{"union", "intersection"} {
+			for _, o2 := range []string{"union", "intersection"} {
+				for _, cmp := range []string{"eq", "contains"} {
+					for _, binds := range [][][2]interface{}{{{"x", tr[0]}}, nil} {
+						x := xv
+						if binds == nil {
+							x = Op{K: 'v', T: tr[0]} // the same literal written twice: two values
+						}
+						e := Expr{x, a, {K: 'b', B: o1}, x, b, {K: 'b', B: o2}, {K: 'b', B: cmp}}
+						emit("shared", e, binds, true)
+						// three uses, and the results consumed in the other order
+						e2 := Expr{x, a, {K: 'b', B: o1}, x, b, {K: 'b', B: o2}, x, {K: 'b', B: "union"}, {K: 'b', B: cmp}}
+						emit("shared", e2, binds, true)
+					}
+				}
+			}
 		}
 	}
 
